@@ -156,11 +156,6 @@ func (q *c19eq) mapEq(r *c19run, fo *types.Func) {
 		}
 		return true
 	})
-	if len(loops) == 0 {
-		c.Violate("R-C19-4", cons+"|values compared for every key", pos(c, d.fd),
-			"the snapshot comparison has no loop over the entries of a snapshot: a change of a value (or a replaced key with the same count) is not detected, the new content is never delivered")
-		return
-	}
 	// Several loops over a snapshot (e.g. a key-existence loop followed by a value loop) are fine:
 	// each may only leave early with false, and one of them must compare the values of every key.
 	wantFor := func(L *ast.RangeStmt) (want []string, undecided string) {
@@ -229,6 +224,14 @@ func (q *c19eq) mapEq(r *c19run, fo *types.Func) {
 			}
 		}
 		return want, ""
+	}
+	if len(loops) == 0 {
+		if q.iterEq(r, f, d.fd, cons, ps, lenKey, wantFor) {
+			return
+		}
+		c.Violate("R-C19-4", cons+"|values compared for every key", pos(c, d.fd),
+			"the snapshot comparison has no loop over the entries of a snapshot: a change of a value (or a replaced key with the same count) is not detected, the new content is never delivered")
+		return
 	}
 	var L *ast.RangeStmt
 	var want []string
@@ -418,5 +421,256 @@ func (q *c19eq) kvEq(g *types.Func) bool {
 	c.Check(bad == nil, "R-C19-4", role, pos(c, d.fd),
 		sprintf("%d non-false exit(s): for two non-nil entries each implies equal Value bytes", n),
 		"the per-entry comparison can return true for two non-nil entries whose Value bytes differ: an update of a value is reported as 'equal' and never delivered", w...)
+	return true
+}
+
+// iterEq: the per-key loop of the snapshot comparison is behind a callback iterator:
+// `return every(a, func(k, v) bool { .. compare v with b[k] .. })`. Three things are checked in
+// place of the loop rules: the iterator visits every entry and reports true only if the callback
+// held for all of them; the callback returns non-false only with the value comparison of
+// (v, other[k]) established; the comparison returns the iterator's verdict with equal lengths
+// established. Returns false if the body does not have this form.
+func (q *c19eq) iterEq(r *c19run, f *flow.Func, fd *ast.FuncDecl, cons string, ps []*types.Var, lenKey string,
+	wantFor func(*ast.RangeStmt) ([]string, string)) bool {
+	c := q.c
+	var it *ast.CallExpr
+	var lit *ast.FuncLit
+	var hfd *ast.FuncDecl
+	argIdx, fnIdx := -1, -1
+	for _, call := range calls(fd.Body, false) {
+		fo, ok := f.Callee(call).(*types.Func)
+		if !ok || fo.Pkg() != f.Pkg.Types {
+			continue
+		}
+		h := declOf(f.Pkg, fo)
+		if h == nil {
+			continue
+		}
+		ai, fi := -1, -1
+		var l *ast.FuncLit
+		for i, a := range call.Args {
+			if o := c19obj(f, a); o != nil && (o == types.Object(ps[0]) || o == types.Object(ps[1])) {
+				ai = i
+			}
+			if fl, ok := ast.Unparen(a).(*ast.FuncLit); ok {
+				fi, l = i, fl
+			}
+		}
+		if ai >= 0 && fi >= 0 && it == nil {
+			it, lit, hfd, argIdx, fnIdx = call, l, h, ai, fi
+		}
+	}
+	if it == nil {
+		return false
+	}
+	if lit.Type.Params == nil || lit.Type.Params.NumFields() != 2 {
+		c.Undecide("R-C19-4", cons+"|values compared for every key", pos(c, lit), "the callback of the iterator does not take (key, value)")
+		return true
+	}
+	var pids []*ast.Ident
+	for _, fld := range lit.Type.Params.List {
+		pids = append(pids, fld.Names...)
+	}
+	if len(pids) != 2 {
+		c.Undecide("R-C19-4", cons+"|values compared for every key", pos(c, lit), "the callback of the iterator does not name (key, value)")
+		return true
+	}
+	// (A) the iterator
+	h := flow.NewFunc(f.Pkg, hfd)
+	c.Count("functions_analysed", 1)
+	hps := c19params(h, hfd.Type)
+	if len(hps) != len(it.Args) {
+		c.Undecide("R-C19-4", cons+"|values compared for every key", pos(c, hfd), "cannot bind the iterator's parameters")
+		return true
+	}
+	hp, hfn := hps[argIdx], hps[fnIdx]
+	var hl *ast.RangeStmt
+	nl := 0
+	c19inspect(hfd.Body, func(n ast.Node) bool {
+		if rs, ok := n.(*ast.RangeStmt); ok && c19obj(h, rs.X) == types.Object(hp) {
+			hl = rs
+			nl++
+		}
+		return true
+	})
+	var cb *ast.CallExpr
+	if hl != nil {
+		for _, call := range calls(hl.Body, false) {
+			if c19obj(h, call.Fun) == types.Object(hfn) && len(call.Args) == 2 &&
+				c19obj(h, call.Args[0]) != nil && c19obj(h, call.Args[0]) == c19obj(h, hl.Key) &&
+				c19obj(h, call.Args[1]) != nil && c19obj(h, call.Args[1]) == c19obj(h, hl.Value) {
+				cb = call
+			}
+		}
+	}
+	itName := declName(f.Pkg, hfd)
+	if nl != 1 || cb == nil {
+		c.Undecide("R-C19-4", cons+"|values compared for every key", pos(c, hfd), "the helper that receives the callback is not a single range loop calling it with (key, value)")
+		return true
+	}
+	cbKey := h.CallKey(cb)
+	var badIter, badEarly *flow.State
+	iters, trues := 0, 0
+	hres := analyze(c, h, flow.Config{NoHavoc: true,
+		OnBlock: func(st *flow.State, b *cfg.Block) {
+			if b.Stmt != hl {
+				return
+			}
+			switch b.Kind {
+			case cfg.KindRangeBody:
+				st.Set(c19evBody, flow.True)
+			case cfg.KindRangeLoop:
+				if st.Is(c19evBody, flow.True) {
+					iters++
+					if !st.Is(cbKey, flow.True) && badIter == nil {
+						badIter = st
+					}
+				}
+				st.Set(c19evBody, flow.Unknown)
+			case cfg.KindRangeDone:
+				st.Set(c19evDone, flow.True)
+			}
+		}})
+	if hres == nil {
+		return true
+	}
+	for _, ex := range hres.Exits {
+		if ex.Kind != flow.ExitReturn || c19phantom(ex) {
+			continue
+		}
+		R := c19result(ex)
+		if R == nil {
+			c.Undecide("R-C19-4", cons+"|values compared for every key", pos(c, hfd), "the iterator does not return a single bool")
+			return true
+		}
+		if v, isC := c19constBool(h, R); isC && !v {
+			continue
+		}
+		trues++
+		if v, isC := c19constBool(h, R); !isC || !v || !ex.State.Is(c19evDone, flow.True) || ex.State.Is(c19evBody, flow.True) {
+			badEarly = ex.State
+		}
+	}
+	var badBreak ast.Node
+	for _, x := range breaksOut(h, hl, labelOf(hfd.Body, hl)) {
+		okx := false
+		if rs, ok := x.(*ast.ReturnStmt); ok && len(rs.Results) == 1 {
+			if v, isC := c19constBool(h, rs.Results[0]); isC && !v {
+				okx = true
+			}
+		}
+		if !okx {
+			badBreak = x
+		}
+	}
+	c.RequireCount("R-C19-4", "abstract iterations of the iterator "+itName, iters, 1)
+	c.Check(badEarly == nil && badBreak == nil && trues > 0, "R-C19-4", cons+"|equal only after all keys were compared", pos(c, hl),
+		sprintf("iterator %s: %d true exit(s), all after its loop was exhausted; the loop is left early only with false", itName, trues),
+		"the iterator the comparison relies on can report 'all entries hold' before every entry was visited (or leaves its loop early with a result other than false): a change of a key visited later is not detected", witness(badEarly)...)
+	// (B) the callback
+	fake := &ast.RangeStmt{Key: pids[0], Value: pids[1], X: it.Args[argIdx], Body: lit.Body}
+	want, und := wantFor(fake)
+	if und != "" {
+		c.Undecide("R-C19-4", cons+"|values compared for every key", pos(c, lit), und)
+		return true
+	}
+	if len(want) == 0 {
+		c.Violate("R-C19-4", cons+"|values compared for every key", pos(c, lit),
+			"the callback handed to the iterator never compares the entry's value with the other snapshot's entry under the same key: an update of a value is not detected and never delivered")
+		return true
+	}
+	lf := f.Lit(lit)
+	lres := analyze(c, lf, flow.Config{NoHavoc: true})
+	if lres == nil {
+		return true
+	}
+	var badCb *flow.State
+	ncb := 0
+	for _, ex := range lres.Exits {
+		if ex.Kind != flow.ExitReturn || c19phantom(ex) {
+			continue
+		}
+		R := c19result(ex)
+		if R == nil {
+			c.Undecide("R-C19-4", cons+"|values compared for every key", pos(c, lit), "the callback does not return a single bool")
+			return true
+		}
+		if v, isC := c19constBool(lf, R); isC && !v {
+			continue
+		}
+		ncb++
+		holds, dec := c19implies(lf, ex.State, R, want, nil)
+		if !dec {
+			c.Undecide("R-C19-4", cons+"|values compared for every key", pos(c, ex.Return), "cannot evaluate the callback's result expression")
+			return true
+		}
+		if !holds && badCb == nil {
+			badCb = ex.State
+		}
+	}
+	c.Check(badIter == nil && badCb == nil && ncb > 0, "R-C19-4", cons+"|values compared for every key", pos(c, lit),
+		sprintf("callback iterator %s: every completed iteration had the callback true; the callback's %d non-false exit(s) imply the value comparison of (entry, other[key])", itName, ncb),
+		"an entry can pass (the iterator goes on although the callback did not hold, or the callback returns true) without the entry's value having been found equal to the other snapshot's value under the same key: a changed value is reported as equal and never delivered", func() []string {
+			if badCb != nil {
+				return witness(badCb)
+			}
+			return witness(badIter)
+		}()...)
+	// (C) the comparison returns the iterator's verdict, with equal lengths established
+	var badLen, badRes *flow.State
+	n := 0
+	fres := analyze(c, f, flow.Config{NoHavoc: true})
+	if fres == nil {
+		return true
+	}
+	hasIt := func(e ast.Expr) bool {
+		found := false
+		var walk func(e ast.Expr)
+		walk = func(e ast.Expr) {
+			e = ast.Unparen(e)
+			if e == ast.Expr(it) {
+				found = true
+			}
+			if be, ok := e.(*ast.BinaryExpr); ok && be.Op == token.LAND {
+				walk(be.X)
+				walk(be.Y)
+			}
+		}
+		walk(e)
+		return found
+	}
+	for _, ex := range fres.Exits {
+		if ex.Kind != flow.ExitReturn || c19phantom(ex) {
+			continue
+		}
+		R := c19result(ex)
+		if R == nil {
+			continue
+		}
+		if v, isC := c19constBool(f, R); isC && !v {
+			continue
+		}
+		n++
+		if !hasIt(R) {
+			badRes = ex.State
+		}
+		if lenKey != "" {
+			if holds, dec := c19implies(f, ex.State, R, []string{lenKey}, nil); dec && !holds {
+				badLen = ex.State
+			}
+		}
+	}
+	c.RequireCount("R-C19-4", "non-false exits of the snapshot comparison", n, 1)
+	if badRes != nil {
+		c.Violate("R-C19-4", cons+"|equal only after all keys were compared", pos(c, fd), "the comparison can report 'equal' on a path that does not return the iterator's verdict", witness(badRes)...)
+	}
+	if lenKey == "" {
+		c.Violate("R-C19-4", cons+"|equal only with equal lengths", pos(c, fd),
+			"the lengths of the two snapshots are never compared: the iteration only shows that one snapshot is contained in the other, so a created (or, the other way round, a deleted) key is reported as 'equal' and never delivered")
+	} else {
+		c.Check(badLen == nil, "R-C19-4", cons+"|equal only with equal lengths", pos(c, fd),
+			sprintf("%d non-false exit(s), all with len(a) == len(b) established", n),
+			"the comparison can report 'equal' although the lengths differ: a created or deleted key is not detected and never delivered", witness(badLen)...)
+	}
 	return true
 }
